@@ -596,12 +596,20 @@ static int mc_finish(void) {
             if (!strcmp(key, k2)) dup = 1;
         }
         if (dup) continue;
-        // confirm deterministically in a fresh process before reporting
-        if (!mc_confirm(&all[i].c, msg, sizeof msg) || !mc_confirm(&all[i].c, msg, sizeof msg)) {
+        // confirm deterministically in a fresh process before reporting. Hangs are expensive to confirm (each confirmation waits for
+        // twice the case limit): after two confirmed hangs the remaining hang reports are dropped, not re-confirmed
+        static int nhang_confirmed = 0;
+        int is_hang = strstr(all[i].msg, "did not return within") != NULL;
+        if (is_hang && nhang_confirmed >= 2) {
+            fprintf(stderr, "further hang (not re-confirmed, not reported): %s\n", key);
+            continue;
+        }
+        if (!mc_confirm(&all[i].c, msg, sizeof msg) || (!is_hang && !mc_confirm(&all[i].c, msg, sizeof msg))) {
             fprintf(stderr, "UNREPRODUCED (not reported): %s : %s\n", key, all[i].msg);
             nunrepro++;
             continue;
         }
+        if (is_hang) nhang_confirmed++;
         if (nreported < 12) {
             mkdir("replay", 0777);
             mkdir(dir, 0777);
